@@ -76,7 +76,7 @@ def check_case(ctx, g, model=None):
     else:
         judge(ctx, g, r["probs"], r["strats"], r["nodes"], "Solver.prune_reachability+prune_stochastich_game")
     # the same through the full pipeline (recording Solver), when the game is solvable
-    s = impl.solve(g, prune=True, limit=3.0) if g.get("_meta", {}).get("family") in ("stopping", "dead_shape") \
+    s = impl.solve(g, prune=True, limit=3.0) if g.get("_meta", {}).get("family") in ("stopping", "dead_shape") and not g.get("_meta", {}).get("extra_finals") \
         else {"outcome": "skipped"}
     if s["outcome"] == "ok" and s["nodes"] is not None:
         judge(ctx, g, s["res"][3], s["res"][1], s["nodes"], "StochasticGame.solve")
@@ -103,7 +103,7 @@ def run(ctx, model=None):
                 check_case(ctx, g, model)
     N = 300 if ctx.quick() else 6000
     for k in range(N):
-        g = gen.stopping_game(rng) if k % 3 else gen.free_game(rng)
+        g = gen.stopping_game(rng, extra_finals=0.25) if k % 3 else gen.free_game(rng)
         check_case(ctx, g, model)
         if ctx.time_left() < 0:
             break
